@@ -16,6 +16,7 @@ import (
 	"context"
 	"encoding/json"
 	"fmt"
+	"io"
 	"os"
 	"os/exec"
 	"path/filepath"
@@ -682,6 +683,271 @@ func genDispatchScript(rng *hx.Rng) c17script {
 	return sc
 }
 
+
+// ---------- stalled peer: back-pressure on a socket transport ----------
+
+type stalledResult struct {
+	fails  []string
+	notes  []string
+	counts []c10Count
+	dist   []string
+	sample string
+}
+
+// stalledPeer: the receiving side of a unix/tcp/tls connection stops reading for T while sender A has
+// frames far larger than the socket buffers in flight and sender B keeps sending small frames; then
+// the receiver reads everything.  Oracles: every received frame is one of the frames sent (nothing
+// merged), each at most once, each sender's in order; a Send that returned nil was delivered; once a
+// Send has failed, either nothing more reaches the peer or the stream is still frame-aligned (the
+// peer never finds itself inside a truncated frame followed by further traffic).
+func stalledPeer(name, addr string, T time.Duration, seed uint64) (res stalledResult) {
+	desc := fmt.Sprintf("stalled peer on %s (receiver stops reading for %v; sender A: 4 frames of 6 MiB, sender B: 8 small frames)", name, T)
+	fail := func(format string, a ...interface{}) {
+		res.fails = append(res.fails, desc+": "+fmt.Sprintf(format, a...))
+	}
+	l, err := net.Listen(addr)
+	if err != nil {
+		res.notes = append(res.notes, fmt.Sprintf("stalled peer: transport %s not available here: %v", name, err))
+		return
+	}
+	defer l.Close()
+	dialAddr := addr
+	if strings.HasPrefix(addr, "tcp") {
+		dialAddr = addr[:strings.Index(addr, "://")+3] + net.VerifListenerAddr(l)
+	}
+	type acc struct {
+		s   net.Stream
+		err error
+	}
+	accc := make(chan acc, 1)
+	helloRead := make(chan error, 1)
+	go func() {
+		s, err := l.Accept()
+		accc <- acc{s, err}
+		if err == nil {
+			var m net.Message
+			helloRead <- m.Read(s) // also completes a tls handshake
+		}
+	}()
+	type dialed struct {
+		e   net.EndPoint
+		err error
+	}
+	dch := make(chan dialed, 1)
+	go func() { e, err := net.DialEndPoint(dialAddr); dch <- dialed{e, err} }()
+	var snd net.EndPoint
+	var peer net.Stream
+	deadline := time.After(8 * time.Second)
+	helloSent := false
+	for snd == nil || peer == nil {
+		select {
+		case d := <-dch:
+			if d.err != nil {
+				res.notes = append(res.notes, fmt.Sprintf("stalled peer: dial %s: %v", dialAddr, d.err))
+				return
+			}
+			snd = d.e
+		case a := <-accc:
+			if a.err != nil {
+				res.notes = append(res.notes, fmt.Sprintf("stalled peer: accept %s: %v", addr, a.err))
+				return
+			}
+			peer = a.s
+		case <-deadline:
+			res.notes = append(res.notes, fmt.Sprintf("stalled peer: connecting %s: timeout", addr))
+			return
+		}
+		if snd != nil && !helloSent {
+			helloSent = true
+			go snd.Send(c10Message(9, 0, 3, net.Post))
+		}
+	}
+	defer snd.Close()
+	defer peer.Close()
+	select {
+	case err := <-helloRead:
+		if err != nil {
+			fail("the first frame was not received: %v", err)
+			return
+		}
+	case <-time.After(8 * time.Second):
+		fail("the first frame was not received within 8 s")
+		return
+	}
+	// from here on the peer does not read
+	const bigSize = 6 * 1024 * 1024
+	type sent struct {
+		m    net.Message
+		err  error
+		done bool
+	}
+	lists := [2][]*sent{}
+	for i := 0; i < 4; i++ {
+		lists[0] = append(lists[0], &sent{m: c10Message(0, i+1, bigSize+i, net.Post)})
+	}
+	for i := 0; i < 8; i++ {
+		lists[1] = append(lists[1], &sent{m: c10Message(1, i+1, 10+i, net.Event)})
+	}
+	var mu sync.Mutex
+	var wg sync.WaitGroup
+	t0 := time.Now()
+	for s := 0; s < 2; s++ {
+		wg.Add(1)
+		go func(s int) {
+			defer wg.Done()
+			for _, x := range lists[s] {
+				err := snd.Send(x.m)
+				mu.Lock()
+				x.err, x.done = err, true
+				mu.Unlock()
+				if s == 1 {
+					time.Sleep(T / 8)
+				}
+			}
+		}(s)
+	}
+	time.Sleep(T)
+	blockedAtResume := 0
+	mu.Lock()
+	for s := 0; s < 2; s++ {
+		for _, x := range lists[s] {
+			if !x.done {
+				blockedAtResume++
+			}
+		}
+	}
+	mu.Unlock()
+	// the peer resumes
+	rd, canDeadline := peer.(interface{ SetReadDeadline(time.Time) error })
+	var got []net.Message
+	var readErr error
+	total := len(lists[0]) + len(lists[1])
+	for len(got) < total {
+		if canDeadline {
+			rd.SetReadDeadline(time.Now().Add(4 * time.Second))
+		}
+		var m net.Message
+		if err := m.Read(peer); err != nil {
+			readErr = err
+			break
+		}
+		got = append(got, m)
+	}
+	if len(got) < total {
+		// the peer gave up on the stream; keep the socket drained so that blocked senders can return
+		if canDeadline {
+			rd.SetReadDeadline(time.Time{})
+		}
+		go io.Copy(io.Discard, peer)
+	}
+	if len(got) < total {
+		// the peer gave up on the stream; keep the socket drained so that blocked senders can return
+		if canDeadline {
+			rd.SetReadDeadline(time.Time{})
+		}
+		go io.Copy(io.Discard, peer)
+	}
+	sendersDone := make(chan struct{})
+	go func() { wg.Wait(); close(sendersDone) }()
+	select {
+	case <-sendersDone:
+	case <-time.After(15 * time.Second):
+		fail("senders still blocked in Send 15 s after the peer resumed reading (%d frames read)", len(got))
+		return
+	}
+	// nothing merged, nothing twice, per-sender order
+	next := [2]int{}
+	delivered := map[*sent]bool{}
+	var order []int
+	for i, m := range got {
+		s := int(m.Header.Service)
+		if s > 1 {
+			fail("frame %d read by the peer (%v, %d payload bytes) was never sent", i, m.Header, len(m.Payload))
+			return
+		}
+		found := false
+		for j := next[s]; j < len(lists[s]); j++ {
+			if sameMessage(m, lists[s][j].m) {
+				// frames whose Send failed may be missing in between
+				for k := next[s]; k < j; k++ {
+					if lists[s][k].err == nil {
+						fail("frame %d of sender %d was read before frame %d, whose Send returned nil", j+1, s, k+1)
+					}
+				}
+				delivered[lists[s][j]] = true
+				next[s] = j + 1
+				found = true
+				break
+			}
+		}
+		if !found {
+			fail("frame %d read by the peer (%v, %d payload bytes) is not one of the frames still to come from sender %d: corrupted, merged, duplicated or out of order", i, m.Header, len(m.Payload), s)
+			return
+		}
+		order = append(order, s)
+	}
+	failed := 0
+	for s := 0; s < 2; s++ {
+		for j, x := range lists[s] {
+			if x.err != nil {
+				failed++
+				continue
+			}
+			if !delivered[x] {
+				why := "no read error"
+				if readErr != nil {
+					why = "the peer stopped at: " + readErr.Error()
+					if len(why) > 200 {
+						why = why[:200]
+					}
+				}
+				fail("Send of frame %d of sender %d (%d payload bytes) returned nil but the peer never received it (%d frames read, %d Sends failed; %s)",
+					j+1, s, len(x.m.Payload), len(got), failed, why)
+			}
+		}
+	}
+	if failed > 0 && len(res.fails) == 0 && readErr != nil && !strings.Contains(readErr.Error(), "EOF") && !strings.Contains(readErr.Error(), "timeout") {
+		fail("%d Sends failed and the peer then found the stream out of frame alignment: %v", failed, readErr)
+	}
+	res.counts = append(res.counts, c10Count{fmt.Sprintf("stalled|%s|%v|%v", name, T, order), blockedAtResume >= 2})
+	res.dist = append(res.dist, "stalled-peer:"+name)
+	res.sample = fmt.Sprintf("%s: %d Sends still blocked when the peer resumed, %d frames read, %d Sends failed, %v in all", desc, blockedAtResume, len(got), failed, time.Since(t0).Round(time.Millisecond))
+	_ = seed
+	return
+}
+
+func startStalledPeers(outdir string, T time.Duration, seed uint64) func(out *c10Out) {
+	type job struct{ name, addr string }
+	jobs := []job{
+		{"unix", "unix://" + sockPath(outdir, "stall.sock")},
+		{"tcp", "tcp://127.0.0.1:0"},
+		{"tls", "tcps://127.0.0.1:0"},
+	}
+	results := make([]stalledResult, len(jobs))
+	var wg sync.WaitGroup
+	for i, j := range jobs {
+		wg.Add(1)
+		go func(i int, j job) {
+			defer wg.Done()
+			results[i] = stalledPeer(j.name, j.addr, T, seed)
+		}(i, j)
+	}
+	return func(out *c10Out) {
+		wg.Wait()
+		for _, r := range results {
+			out.Fails = append(out.Fails, r.fails...)
+			out.Notes = append(out.Notes, r.notes...)
+			out.Counts = append(out.Counts, r.counts...)
+			for _, d := range r.dist {
+				out.Dist[d]++
+			}
+			if r.sample != "" {
+				out.Notes = append(out.Notes, r.sample)
+			}
+		}
+	}
+}
+
 // ---------- child / parent ----------
 
 func childC10(res *hx.Result, rng *hx.Rng, tier string, outdir string) {
@@ -697,6 +963,15 @@ func childC10(res *hx.Result, rng *hx.Rng, tier string, outdir string) {
 	if thorough {
 		mult = 20
 	}
+	// the stalled-peer scenario mostly waits: it runs beside the other phases and is collected at the end
+	stallT := 1500 * time.Millisecond
+	if thorough {
+		stallT = 12 * time.Second
+	}
+	if v, err := time.ParseDuration(os.Getenv("QV_C10_STALL_T")); err == nil && v > 0 {
+		stallT = v // e.g. QV_C10_STALL_T=12s ./check C10 quick : the thorough stall without the rest of the thorough tier
+	}
+	joinStalled := startStalledPeers(outdir, stallT, res.Seed)
 	save("rendezvous stream")
 	phaseRendezvous(out, rng, 30*mult)
 	k := 0
@@ -747,6 +1022,8 @@ func childC10(res *hx.Result, rng *hx.Rng, tier string, outdir string) {
 	out.Notes = append(out.Notes, fmt.Sprintf("handlers registered and removed concurrently with traffic: %d rounds, %d handlers, %d messages delivered; every closed handler received exactly what its filter selected while its queue had room",
 		rounds, agg["handlers"], agg["delivered"]))
 	out.Dist["stress-rounds"] = rounds
+	save("stalled peer")
+	joinStalled(out)
 	save("done")
 }
 
